@@ -113,7 +113,13 @@ impl Shard {
 }
 
 fn scaled(sh: &Shard, quick_total: u64, thorough_total: u64) -> usize {
-	let total = if sh.tier == "thorough" { thorough_total } else { quick_total };
+	let mut total = if sh.tier == "thorough" { thorough_total } else { quick_total };
+	// smoke test of the thorough tier: PDBV_THOROUGH_DIV=<n>
+	if sh.tier == "thorough" {
+		if let Some(d) = std::env::var("PDBV_THOROUGH_DIV").ok().and_then(|s| s.parse::<u64>().ok()) {
+			total = (total / d.max(1)).max(sh.shards);
+		}
+	}
 	(((total + sh.shards - 1) / sh.shards).max(1)) as usize
 }
 
